@@ -7,6 +7,7 @@ package main
 // their own name. The canonical printer (symExpr) prints role names, so renaming a field changes nothing.
 
 import (
+	"fmt"
 	"go/types"
 	"strings"
 
@@ -184,4 +185,129 @@ func roleField(u *Universe, path, typ, role string) *types.Var {
 		}
 	}
 	return nil
+}
+
+// --- function roles: unexported helpers are found by what they do, not by how they are called ---
+
+var funcRoleMemo = map[string]*ssa.Function{}
+
+// roleFunc: the function of package path that plays the given role.
+//   writerInner  — the constructor NewParquetWriter delegates to (takes the sink and the option list)
+//   readRowGroup — the method of ParquetReader that NewParquetReader calls last and that invokes Field.Read
+//   getFields    — the function whose result the reader keeps as its column map
+//   metaSize     — (runtime) the function ReadMetaData calls that seeks relative to the end of the source
+//   structField  — (generator, package structs) the function that renders one schema element as a Go field
+func roleFunc(u *Universe, path, role string) *ssa.Function {
+	key := fmt.Sprintf("%p|%s|%s", u, path, role)
+	if f, ok := funcRoleMemo[key]; ok {
+		return f
+	}
+	var out *ssa.Function
+	invokes := func(f *ssa.Function, method string) bool {
+		for _, g := range unitFns(u, f) {
+			for _, b := range g.Blocks {
+				for _, ins := range b.Instrs {
+					if c, ok := ins.(*ssa.Call); ok && c.Call.IsInvoke() && c.Call.Method.Name() == method {
+						return true
+					}
+				}
+			}
+		}
+		return false
+	}
+	switch role {
+	case "writerInner":
+		if ctor := u.Func(path, "NewParquetWriter"); ctor != nil {
+			for _, b := range ctor.Blocks {
+				for _, ins := range b.Instrs {
+					if c, ok := ins.(*ssa.Call); ok {
+						if sc := c.Call.StaticCallee(); sc != nil && u.pkgPathOf(sc) == path && sc.Signature.Variadic() && sc.Signature.Results().Len() == 2 {
+							out = sc
+						}
+					}
+				}
+			}
+		}
+	case "readRowGroup":
+		if ctor := u.Func(path, "NewParquetReader"); ctor != nil {
+			for _, g := range unitFns(u, ctor) {
+				if g != ctor && g.Signature.Recv() != nil && g.Signature.Params().Len() == 0 && g.Signature.Results().Len() == 1 && invokes(g, "Read") {
+					// the outermost such method: not called by another candidate
+					if out == nil || len(callsTo(g, out.String())) > 0 {
+						out = g
+					}
+				}
+			}
+		}
+	case "getFields":
+		rrg := roleFunc(u, path, "readRowGroup")
+		if rrg != nil {
+			for _, b := range rrg.Blocks {
+				for _, ins := range b.Instrs {
+					if st, ok := ins.(*ssa.Store); ok && roleOf(fieldOf(st.Addr)) == "fields" {
+						if c, ok := st.Val.(*ssa.Call); ok && c.Call.StaticCallee() != nil {
+							out = c.Call.StaticCallee()
+						}
+					}
+				}
+			}
+		}
+	case "metaSize":
+		if rm := u.Func(path, "ReadMetaData"); rm != nil {
+			for _, b := range rm.Blocks {
+				for _, ins := range b.Instrs {
+					c, ok := ins.(*ssa.Call)
+					if !ok || c.Call.StaticCallee() == nil || u.pkgPathOf(c.Call.StaticCallee()) != path {
+						continue
+					}
+					sc := c.Call.StaticCallee()
+					for _, g := range unitFns(u, sc) {
+						for _, b2 := range g.Blocks {
+							for _, i2 := range b2.Instrs {
+								if c2, ok := i2.(*ssa.Call); ok && c2.Call.IsInvoke() && c2.Call.Method.Name() == "Seek" && len(c2.Call.Args) == 2 && constIs(c2.Call.Args[1], 2) {
+									if _, isK := c2.Call.Args[0].(*ssa.Const); isK {
+										out = sc
+									}
+								}
+							}
+						}
+					}
+				}
+			}
+		}
+	case "structField":
+		// called from the reconstruction with one schema element, returns a string
+		if sp := u.SSAPkgs[path]; sp != nil {
+			for _, m := range sp.Members {
+				f, ok := m.(*ssa.Function)
+				if !ok || f.Blocks == nil || f.Signature.Params().Len() != 1 || f.Signature.Results().Len() != 1 {
+					continue
+				}
+				if !strings.HasSuffix(f.Signature.Params().At(0).Type().String(), "schema.SchemaElement") || f.Signature.Results().At(0).Type().String() != "string" {
+					continue
+				}
+				// the one that builds a tagged field: its text mentions `parquet:`
+				for _, b := range f.Blocks {
+					for _, ins := range b.Instrs {
+						if c, ok := ins.(*ssa.Call); ok {
+							for _, a := range c.Call.Args {
+								if k, ok := a.(*ssa.Const); ok && k.Value != nil && strings.Contains(k.Value.ExactString(), "parquet:") {
+									out = f
+								}
+							}
+						}
+						if bo, ok := ins.(*ssa.BinOp); ok {
+							for _, a := range []ssa.Value{bo.X, bo.Y} {
+								if k, ok := a.(*ssa.Const); ok && k.Value != nil && strings.Contains(k.Value.ExactString(), "parquet:") {
+									out = f
+								}
+							}
+						}
+					}
+				}
+			}
+		}
+	}
+	funcRoleMemo[key] = out
+	return out
 }
